@@ -27,6 +27,7 @@ type Source struct {
 	replayOn bool
 	pos      int
 	trace    []int
+	ns       []int
 	labels   []string
 	keepLbl  bool
 	hash     uint64
@@ -89,6 +90,7 @@ func (s *Source) Intn(n int, label string) int {
 		v = s.rng.IntN(n)
 	}
 	s.trace = append(s.trace, v)
+	s.ns = append(s.ns, n)
 	if s.keepLbl {
 		s.labels = append(s.labels, label)
 	}
@@ -163,6 +165,9 @@ func (s *Source) Bytes(n int, label string) []byte {
 	}
 	return b
 }
+
+// Ns returns the range of every draw made so far.
+func (s *Source) Ns() []int { return s.ns }
 
 // IsReplay reports whether the source replays a recorded trace.
 func (s *Source) IsReplay() bool { return s.replayOn }
